@@ -512,7 +512,8 @@ def run_program(spec, policy, n_runs=1, inputs=None, drain=True, world=None, kee
         ctxs = []
         first_task = len(loop.tasks)
         for r in range(n_runs):
-            ik = dict((inputs or [spec['input_kwargs']] * n_runs)[r])
+            # a caller's own dict is handed to chart.run as it is (the caller may look at it afterwards, and may reuse it)
+            ik = inputs[r] if inputs else dict(spec['input_kwargs'])
             ctxs.append(w.start_run(r, ik))
         if w.obs:
             events.append({'k': 'init', 'obs': w.take_obs()})
@@ -597,7 +598,7 @@ def run_program(spec, policy, n_runs=1, inputs=None, drain=True, world=None, kee
             'verdict': verdict,
             'results': [list(c.result) if c.result else (['cancelled'] if c.task.cancelled() else None) for c in ctxs],
             'lock_slow_path': loop.lock_slow_path, 'handles': nh, 'choices': choices,
-            'inputs': [dict(c.input_kwargs) for c in ctxs],
+            'inputs': [{k: progen.canon(v) for k, v in c.input_kwargs.items()} for c in ctxs],
         }
         return res
     finally:
